@@ -102,7 +102,7 @@ func partsExistWhenEmitted(ti *mon.TraceIndex, rec string) []mon.Problem {
 func c19(args []string) {
 	c := chk.New("C19", "exploration", args)
 	c.Build(false)
-	c.Rule("every bundled component is placed between sources and recorders / consuming tasks and compared with a reference function: FileCombinator and ParamCombinator with 1-4 ports and stream lengths 0..B+1 from independent upstreams (B in {1,3}) and 0..B from a shared upstream - the multiset of aligned tuples (i-th item of every out-port) must equal the Cartesian product, each once; IPSelectorSync with every predicate outcome pattern over up to 6 aligned tuples; FileSplitter over files of 0..12 lines (some lines 5 000 and 20 000 bytes long, percent signs and tabs in the text) (with and without trailing newline) x 1..5 lines per split - parts concatenate back to the input, no part longer than the limit; Concatenator (single upstream: exact arrival order; fan-in: arrival order as recorded; GroupByTag) - output == every input's content plus newline once in arrival order; FileSource / ParamSource / FileToParamsReader (incl. last line without newline, empty lines, lines that begin or end with blanks / tabs) / CommandToParams - emitted == given / read, in order; FileGlobber - emitted == an independent matcher over a generated directory tree, per pattern in lexical order (also several patterns of which some match nothing); the recorders stat every item on reception: what a file-emitting component hands downstream must exist at that moment (FileSplitter parts included); Concatenator with GroupByTag over a stream mixing tagged and untagged files, and over tag values that differ in punctuation only (files identified through the emitted IPs); two or three FileSplitter processes at work at the same time on equally named files in different directories; FileSplitter history: one file split in a first run, then that file plus unsplit ones in a second run. distinct_nontrivial = distinct (component, shape) cases whose comparison was made on >= 1 emitted item or an empty expectation")
+	c.Rule("every bundled component is placed between sources and recorders / consuming tasks and compared with a reference function: FileCombinator and ParamCombinator with 1-4 ports and stream lengths 0..B+1 from independent upstreams (B in {1,3}) and 0..B from a shared upstream - the multiset of aligned tuples (i-th item of every out-port) must equal the Cartesian product, each once; IPSelectorSync with every predicate outcome pattern over up to 6 aligned tuples; FileSplitter over files of 0..12 lines (some lines 5 000 and 20 000 bytes long, percent signs and tabs in the text) (with and without trailing newline) x 1..5 lines per split - parts concatenate back to the input, no part longer than the limit; Concatenator (single upstream: exact arrival order; fan-in: arrival order as recorded; GroupByTag) - output == every input's content plus newline once in arrival order; FileSource / ParamSource / FileToParamsReader (incl. last line without newline, empty lines, lines that begin or end with blanks / tabs) / CommandToParams - emitted == given / read, in order; FileGlobber - emitted == an independent matcher over a generated directory tree, per pattern in lexical order (also several patterns of which some match nothing); the recorders stat every item on reception: what a file-emitting component hands downstream must exist at that moment (FileSplitter parts included); Concatenator over 150-210 inputs under a limit of 96 open files; Concatenator with GroupByTag over a stream mixing tagged and untagged files, and over tag values that differ in punctuation only (files identified through the emitted IPs); two or three FileSplitter processes at work at the same time on equally named files in different directories; FileSplitter history: one file split in a first run, then that file plus unsplit ones in a second run. distinct_nontrivial = distinct (component, shape) cases whose comparison was made on >= 1 emitted item or an empty expectation")
 	c.Assume("unequal closing of IPSelectorSync inputs is a documented failure and is not generated", "a trailing empty part after an exact multiple of the line limit is legal")
 	rng := c.Rand("c19")
 	var jobs []*c19Job
@@ -368,6 +368,42 @@ func c19(args []string) {
 					return ps
 				}})
 		}
+	}
+	// many inputs under a low limit of open files (the component reads file after file; it needs no more descriptors
+	// for 150 inputs than for 2)
+	for rep := 0; rep < c.Pick(2, 4); rep++ {
+		s := &spec.Spec{Name: "concatmany", MaxTasks: 2, Sources: map[string]string{}}
+		src := &spec.Proc{Name: "S", Kind: spec.KFileSource}
+		n := 150 + 30*rep
+		want := ""
+		for k := 0; k < n; k++ {
+			f := fmt.Sprintf("many/m%03d.txt", k)
+			src.Files = append(src.Files, f)
+			s.Sources[f] = fmt.Sprintf("content %d", k)
+			want += s.Sources[f] + "\n"
+		}
+		cc := &spec.Proc{Name: "CC", Kind: spec.KConcat, OutPath: "all/many.txt"}
+		s.Procs = append(s.Procs, src, cc, &spec.Proc{Name: "ROUT", Kind: spec.KRecorder})
+		if rep%2 == 1 {
+			cc.GroupBy = "grp"
+			s.Procs = append(s.Procs, &spec.Proc{Name: "T", Kind: spec.KMapToTags, Tags: []*spec.TagRule{{Key: "grp", Rule: "const:one"}}})
+			s.Conns = append(s.Conns, &spec.Conn{From: "S.out", To: "T.in"}, &spec.Conn{From: "T.out", To: "CC.in"}, &spec.Conn{From: "CC.out", To: "ROUT.in"})
+		} else {
+			s.Conns = append(s.Conns, &spec.Conn{From: "S.out", To: "CC.in"}, &spec.Conn{From: "CC.out", To: "ROUT.in"})
+		}
+		w, grouped := want, rep%2 == 1
+		jobs = append(jobs, &c19Job{name: "Concatenator", s: s, cfg: Cfg{Buf: 3, Procs: 2, NoFile: 96, NoHooks: true}, label: fmt.Sprintf("%d inputs with at most 96 open files, group by tag %v", n, grouped),
+			oracle: func(res *run.Result, ti *mon.TraceIndex, exp *ref.Result) []mon.Problem {
+				p := "all/many.txt"
+				if grouped {
+					p = "all/many.txt.grp_one"
+				}
+				b, err := os.ReadFile(filepath.Join(res.Wd, p))
+				if err != nil || string(b) != w {
+					return []mon.Problem{{Sig: "concatenator-content", Msg: fmt.Sprintf("%s holds %d bytes, the inputs in order give %d (%v)", p, len(b), len(w), err)}}
+				}
+				return nil
+			}})
 	}
 	// GroupByTag with tag values that differ in punctuation only (1.5 / 1_5 / 1-5): one output per value. The files are
 	// identified through the emitted IPs, not through their names.
